@@ -287,9 +287,11 @@ def r4(ctx):
             h = vf.expr(f, c.args[-1])
             good = h[0] == "call" and h[1] == "tommy_inthash_u32"
             src = h[3][0] if good else None
-            good = good and (src == ("arg", 1) or (src[0] == "load" and vf.last_field(src[1]) == "spki_record.asn" and vf.root_of(src[1]) == ("arg", 1)))
+            own = good and src[0] == "load" and vf.last_field(src[1]) == "key_entry.asn" and \
+                any(vf.root_of(vf.expr(f, a)) == vf.root_of(src[1]) for a in c.args[1:-1])     # the AS number of the very entry handed to the call
+            good = good and (own or src == ("arg", 1) or (src[0] == "load" and vf.last_field(src[1]) == "spki_record.asn" and vf.root_of(src[1]) == ("arg", 1)))
             ctx.check(good, "C10.R4", "%s:%s" % (f.name, c.callee), c.loc(), "hash argument %s" % vf.show(h), key="C10.R4:%s:%s" % (f.name, c.callee))
-    ctx.floor("C10.R4", n, 5)
+    ctx.floor("C10.R4", n, 3)
 
 
 def r6_diff(ctx, retsets):
@@ -360,7 +362,7 @@ def r_walks(ctx, only=None):
             for br, truth, tgt in L["exits"]:
                 if es.edge_facts(fn, br, truth).eq(cur, ("c", 0)) or es.edge_facts(fn, br, truth).zero(cur):
                     continue
-                if es.fails_only(fn, tgt):
+                if es.fails_only(fn, tgt) or es.fails_on_edge(fn, br, truth):
                     continue
                 badexit.append(br)
             det = []
